@@ -803,3 +803,256 @@ Section Accounts.
         split; [exact Hx2|]. split; [constructor; [split; [exact Eacc|split; [exact Eburn|exact Ekey]]|exact Hs2]|].
         split; [|exact Hr2]. intros d0. rewrite Hu2. rewrite <- (Hu1 d0). rewrite <- app_assoc. reflexivity.
   Qed.
+
+  (* ------------------------------------------------------------------ facts that do not look at the failure list *)
+  Lemma xinv_any_bank sts b b' : bk_bal b' = bk_bal b -> bk_burned b' = bk_burned b -> xinv sts b -> xinv sts b'.
+  Proof.
+    intros E1 E2 [[A B C D0 E F] L Zs [Z1 Z2]]. constructor; [constructor; try assumption; rewrite ?E1, ?E2; assumption|exact L|exact Zs|].
+    split; [intros a; rewrite E1; apply Z1|rewrite E2; exact Z2].
+  Qed.
+  Lemma RepF_any_bank d st sts b b' i : bk_bal b' = bk_bal b -> bk_burned b' = bk_burned b -> RepF d st sts b i -> RepF d st sts b' i.
+  Proof. intros E1 E2 (R1 & R2 & R3). unfold RepF, ledA, ledB, unbooked, mainbal in *. rewrite E1, E2. auto. Qed.
+  Lemma unbooked_any_bank sts b b' d : bk_bal b' = bk_bal b -> unbooked sts b' d = unbooked sts b d.
+  Proof. intros E. unfold unbooked, mainbal. rewrite E. reflexivity. Qed.
+
+  Lemma xinv_perm sts sts' b : Permutation sts' sts -> xinv sts b -> xinv sts' b.
+  Proof.
+    intros Hp [[A B C D0 E F] [K N] Zs Zb]. symmetry in Hp.
+    constructor; [constructor; try assumption; eapply Permutation_Forall; eassumption| |eapply Permutation_Forall; eassumption|exact Zb].
+    split; [eapply Permutation_Forall; eassumption|]. eapply Permutation_NoDup; [apply Permutation_map; exact Hp|exact N].
+  Qed.
+  Lemma RepF_perm d st sts sts' b i : Permutation sts' sts -> RepF d st sts b i -> RepF d st sts' b i.
+  Proof.
+    intros Hp (R1 & R2 & R3). unfold RepF, ledA, ledB, unbooked in *.
+    split; [intros a Ha; rewrite (R1 a Ha), (remk_perm _ d _ _ Hp); reflexivity|].
+    split; [rewrite R2, (remk_perm _ d _ _ Hp); reflexivity|]. rewrite R3, (remsum_perm d _ _ Hp). reflexivity.
+  Qed.
+
+  Lemma lkeyed_keyed sts : Forall lkeyed sts -> Forall (keyed bk Acct) sts.
+  Proof.
+    intros H. eapply Forall_impl; [|exact H]. intros s Hs. unfold lkeyed in Hs. unfold keyed.
+    destruct (st_acc s); [|exact Hs]. destruct (st_burn s); tauto.
+  Qed.
+
+  Lemma sd_dests_in sd : sd_dests_ok sd -> dests_in Acct sd.
+  Proof.
+    intros (Hs & _ & Hp). split.
+    - eapply Forall_impl; [|exact Hs]. intros sh [_ [Hm|Ha]] Hn; [contradiction|exact Ha].
+    - intros Hn. destruct Hp as [Hm|Ha]; [contradiction|exact Ha].
+  Qed.
+
+  (* ------------------------------------------------------------------ one BeginBlock *)
+  Definition wbank (w : dworld) : bank := {| bk_bal := dw_bal w; bk_burned := dw_burned w; bk_faults := []; bk_calls := 0 |}.
+
+  Record lwinv (w : dworld) : Prop := {
+    lw_x : xinv (dw_states w) (wbank w);
+    lw_sorted : ksorted (dw_states w);
+    lw_bk : dw_burnkey w = bk;
+    lw_cfg : Forall sd_full_ok (dw_subs w);
+    lw_unb : forall d, 0 <= unbooked (dw_states w) (wbank w) d }.
+
+  Definition LRep (d : Z) (st : aled) (w : dworld) : Prop := RepF d st (dw_states w) (wbank w) 0.
+
+  (* whatever payouts and burns fail: the block completes, the invariants are kept, and what every account has been credited
+     afterwards is what the credited-amounts machine computes from what it had been credited before *)
+  Theorem block_refines_ledger w (st : Z -> aled) payout_faults :
+    lwinv w -> (forall d, LRep d (st d) w) ->
+    exists w' evs, block_split w payout_faults = Ok (w', evs) /\ lwinv w' /\ dw_subs w' = dw_subs w /\
+      forall d, LRep d (a_block (dw_subs w) (st d)) w'.
+  Proof.
+    intros [Hx Hs Hbk Hcfg Hu] Hrep. unfold block_split. fold (wbank w). rewrite Hbk.
+    destruct (run_subs_effect (dw_subs w) (dw_states w) (wbank w) [] st Hcfg Hx eq_refl Hu Hrep) as (sts & b1 & evs & E1 & Hx1 & Hf1 & Hu1 & Hr1).
+    rewrite E1.
+    set (b1' := {| bk_bal := bk_bal b1; bk_burned := bk_burned b1; bk_faults := payout_faults; bk_calls := bk_calls b1 |}).
+    assert (Hx1' : xinv ([] ++ sts) b1') by (cbn [app]; eapply xinv_any_bank; [| |exact Hx1]; reflexivity).
+    assert (Hu1' : forall d, 0 <= unbooked ([] ++ sts) b1' d) by (intros d; cbn [app]; rewrite (unbooked_any_bank sts b1 b1' d eq_refl); apply Hu1).
+    assert (Hr1' : forall d, RepF d (a_block (dw_subs w) (st d)) ([] ++ sts) b1' 0) by (intros d; cbn [app]; eapply RepF_any_bank; [| |apply Hr1]; reflexivity).
+    destruct (payout_all_effect 0 sts b1' [] _ Hx1' Hu1' (Hr1' 0)) as (sts' & b2 & E2 & Hx2 & Hsig & Hu2 & _).
+    rewrite E2. cbn [app] in Hx2, Hu2.
+    eexists _, evs. split; [reflexivity|].
+    (* the store *)
+    pose proof (evolves_run_subs Acct bk _ _ _ _ _ _ _ E1 (Forall_impl _ (fun sd H => sd_dests_in sd (proj1 (proj2 H))) Hcfg)) as Hev.
+    destruct (evolves_keys Acct bk Acct acct_bk (fun a a' Ha Ha' E => proj1 (key_id a a' Ha Ha') E) (fun a H => H) _ _ Hev
+                (lkeyed_keyed _ (proj1 (x_lin _ _ Hx))) (proj2 (x_lin _ _ Hx))) as (_ & _ & nk & Hpre).
+    pose proof (same_sig_keys _ _ Hsig) as Hkeys.
+    destruct (store_all_perm sts' (dw_states w) nk Hs ltac:(rewrite Hkeys; exact Hpre) (proj2 (x_lin _ _ Hx2))) as [Hsorted Hperm].
+    assert (Hxf : xinv (store_all sts' (dw_states w)) {| bk_bal := bk_bal b2; bk_burned := bk_burned b2; bk_faults := []; bk_calls := 0 |}).
+    { eapply xinv_any_bank; [| |eapply xinv_perm; [exact Hperm|exact Hx2]]; reflexivity. }
+    split; [|split; [reflexivity|]].
+    - constructor; cbn [dw_states dw_bal dw_burned dw_burnkey dw_subs]; unfold wbank; cbn [dw_states dw_bal dw_burned].
+      + exact Hxf.
+      + exact Hsorted.
+      + reflexivity.
+      + exact Hcfg.
+      + intros d. unfold unbooked, mainbal. cbn [bk_bal]. rewrite (remsum_perm d _ _ Hperm).
+        pose proof (Hu2 d) as H2. unfold unbooked, mainbal in H2. rewrite H2. apply Hu1'.
+    - intros d. unfold LRep, wbank. cbn [dw_states dw_bal dw_burned].
+      destruct (payout_all_effect d sts b1' [] _ Hx1' Hu1' (Hr1' d)) as (sts'' & b2' & E2' & _ & _ & _ & Hr2).
+      rewrite E2 in E2'. injection E2' as <- <-. cbn [app] in Hr2.
+      eapply RepF_any_bank; [| |eapply RepF_perm; [exact Hperm|exact Hr2]]; reflexivity.
+  Qed.
+
+  (* ------------------------------------------------------------------ coins arriving between blocks *)
+  Lemma inflow_effect w (tgt : option dacct) c (st : Z -> aled) :
+    lwinv w -> dc_wf c -> dc_nz c -> (forall d, 0 <= dc_amt d c) ->
+    match tgt with Some a => Acct a /\ da_type a <> T_INTERNAL | None => True end ->
+    (forall d, LRep d (st d) w) ->
+    let addr := match tgt with Some a => da_addr a | None => MAINADDR end in
+    lwinv (dist_inflow w addr c) /\
+    forall d, LRep d (match tgt with Some a => a_inflow_acct a (dc_amt d c) (st d) | None => a_inflow_main (dc_amt d c) (st d) end) (dist_inflow w addr c).
+  Proof.
+    intros [Hx Hs Hbk Hcfg Hu] Hcw Hcz Hcn Htgt Hrep addr.
+    destruct Hx as [Hi Hl Hzs Hzb].
+    assert (Hnew : forall x d, dc_amt d (bal_of (aset addr (dc_add (bal_of (dw_bal w) addr) c) (dw_bal w)) x) =
+                               dc_amt d (bal_of (dw_bal w) x) + (if x =? addr then dc_amt d c else 0)).
+    { intros x d. destruct (x =? addr) eqn:E.
+      - assert (x = addr) by lia. subst x. rewrite bal_of_aset_same. rewrite dc_add_amt; [reflexivity|apply (i_bwf _ _ Hi)|exact Hcw].
+      - rewrite bal_of_aset_other by lia. lia. }
+    assert (Hx' : xinv (dw_states w) (wbank (dist_inflow w addr c))).
+    { unfold wbank, dist_inflow. cbn [dw_bal dw_burned]. constructor; [|exact Hl|exact Hzs|].
+      - destruct Hi as [A B C D0 E F]. constructor; try assumption.
+        + intros x. cbn [bk_bal]. destruct (Z.eq_dec x addr) as [->|Hne]; [rewrite bal_of_aset_same; apply dc_add_wf; [apply D0|exact Hcw]|rewrite bal_of_aset_other by exact Hne; apply D0].
+        + intros x d. cbn [bk_bal]. rewrite Hnew. pose proof (E x d) as H0. cbn [wbank bk_bal] in H0. specialize (Hcn d). destruct (x =? addr); lia.
+      - destruct Hzb as [Z1 Z2]. split; [|exact Z2]. intros x. cbn [bk_bal].
+        destruct (Z.eq_dec x addr) as [->|Hne]; [rewrite bal_of_aset_same; apply dc_add_nz; [apply Z1|exact Hcz]|rewrite bal_of_aset_other by exact Hne; apply Z1]. }
+    assert (Hunb : forall d, unbooked (dw_states w) (wbank (dist_inflow w addr c)) d =
+                             unbooked (dw_states w) (wbank w) d + (if MAINADDR =? addr then dc_amt d c * P else 0)).
+    { intros d. unfold unbooked, mainbal, wbank, dist_inflow. cbn [dw_bal bk_bal]. rewrite Hnew. destruct (MAINADDR =? addr); lia. }
+    split.
+    - constructor; cbn [dist_inflow dw_states dw_burnkey dw_subs]; try assumption.
+      intros d. change (dw_states w) with (dw_states (dist_inflow w addr c)) at 1. cbn [dist_inflow dw_states]. rewrite Hunb. specialize (Hu d). specialize (Hcn d). pose proof P_pos. destruct (MAINADDR =? addr); nia.
+    - intros d. destruct (Hrep d) as (R1 & R2 & R3). unfold LRep. cbn [dist_inflow dw_states].
+      destruct tgt as [a|].
+      + destruct Htgt as [Ha Hni]. subst addr. pose proof (acct_addr a Ha Hni) as Hnm.
+        split; [|split].
+        * intros a' Ha'. cbn [a_inflow_acct aL]. unfold a_set, ledA. cbn [wbank bk_bal dist_inflow dw_bal]. rewrite Hnew.
+          destruct (da_key a' =? da_key a) eqn:Ek.
+          -- assert (Ekk : da_key a' = da_key a) by lia. destruct (key_same a' a Ha' Ha Ekk) as [Et Ead]. rewrite Et, Ead, Ekk, Z.eqb_refl.
+             rewrite (R1 a Ha). unfold ledA. cbn [wbank bk_bal]. replace (da_type a =? T_INTERNAL) with false by lia. lia.
+          -- rewrite (R1 a' Ha'). unfold ledA. cbn [wbank bk_bal]. destruct (da_type a' =? T_INTERNAL) eqn:Ei; [reflexivity|].
+             replace (da_addr a' =? da_addr a) with false; [lia|]. symmetry. apply Z.eqb_neq. intros Heq.
+             assert (da_key a' = da_key a) by (apply addr_key; try assumption; lia). lia.
+        * cbn [a_inflow_acct aB]. rewrite R2. unfold ledB. reflexivity.
+        * cbn [a_inflow_acct aU]. rewrite Hunb. replace (MAINADDR =? da_addr a) with false by lia. lia.
+      + subst addr. split; [|split].
+        * intros a' Ha'. cbn [a_inflow_main aL]. rewrite (R1 a' Ha'). unfold ledA. cbn [wbank bk_bal dist_inflow dw_bal].
+          destruct (da_type a' =? T_INTERNAL) eqn:Ei; [reflexivity|]. rewrite Hnew.
+          replace (da_addr a' =? MAINADDR) with false by (pose proof (acct_addr a' Ha'); lia). lia.
+        * cbn [a_inflow_main aB]. rewrite R2. unfold ledB. reflexivity.
+        * cbn [a_inflow_main aU]. rewrite Hunb, Z.eqb_refl. lia.
+  Qed.
+
+  (* ------------------------------------------------------------------ histories *)
+  Inductive lop :=
+  | LInflowMain (c : dcoins)                (* coins arriving at the main account (minted coins, fees) *)
+  | LInflowAcct (a : dacct) (c : dcoins)    (* coins arriving at a module / base account of the configuration *)
+  | LBlock (payout_faults : list bool).     (* BeginBlock; which payouts and burns fail *)
+
+  Definition lop_ok (o : lop) : Prop :=
+    match o with
+    | LInflowMain c => dc_wf c /\ dc_nz c /\ forall d, 0 <= dc_amt d c
+    | LInflowAcct a c => Acct a /\ da_type a <> T_INTERNAL /\ dc_wf c /\ dc_nz c /\ forall d, 0 <= dc_amt d c
+    | LBlock _ => True
+    end.
+
+  Definition lstep (w : dworld) (o : lop) : outcome dworld :=
+    match o with
+    | LInflowMain c => Ok (dist_inflow w MAINADDR c)
+    | LInflowAcct a c => Ok (dist_inflow w (da_addr a) c)
+    | LBlock pf => match block_split w pf with Ok (w', _) => Ok w' | Err => Err | Panic => Panic end
+    end.
+  Fixpoint lrun (w : dworld) (ops : list lop) : outcome dworld :=
+    match ops with [] => Ok w | o :: t => match lstep w o with Ok w' => lrun w' t | Err => Err | Panic => Panic end end.
+
+  (* the same history on credited amounts (one denomination): the failure lists are not looked at *)
+  Definition a_step (subs : list subdist) (d : Z) (st : aled) (o : lop) : aled :=
+    match o with
+    | LInflowMain c => a_inflow_main (dc_amt d c) st
+    | LInflowAcct a c => a_inflow_acct a (dc_amt d c) st
+    | LBlock _ => a_block subs st
+    end.
+  Definition a_run (subs : list subdist) (d : Z) (st : aled) (ops : list lop) : aled := fold_left (a_step subs d) ops st.
+
+  Theorem history_refines_ledger ops : forall w (st : Z -> aled),
+    lwinv w -> Forall lop_ok ops -> (forall d, LRep d (st d) w) ->
+    exists w', lrun w ops = Ok w' /\ lwinv w' /\ dw_subs w' = dw_subs w /\ forall d, LRep d (a_run (dw_subs w) d (st d) ops) w'.
+  Proof.
+    induction ops as [|o t IH]; intros w st Hw Hok Hrep; cbn [lrun a_run fold_left].
+    - exists w. split; [reflexivity|]. split; [exact Hw|]. split; [reflexivity|exact Hrep].
+    - inversion Hok as [|? ? Ho Hok']; subst. destruct o as [c|a c|pf]; cbn [lstep a_step].
+      + destruct Ho as (H1 & H2 & H3). destruct (inflow_effect w None c st Hw H1 H2 H3 I Hrep) as [Hw1 Hr1]. cbv zeta in Hw1, Hr1.
+        destruct (IH _ _ Hw1 Hok' Hr1) as (w' & E & A & B & C). exists w'. split; [exact E|]. split; [exact A|]. split; [exact B|]. exact C.
+      + destruct Ho as (H0 & H0' & H1 & H2 & H3). destruct (inflow_effect w (Some a) c st Hw H1 H2 H3 (conj H0 H0') Hrep) as [Hw1 Hr1]. cbv zeta in Hw1, Hr1.
+        destruct (IH _ _ Hw1 Hok' Hr1) as (w' & E & A & B & C). exists w'. split; [exact E|]. split; [exact A|]. split; [exact B|]. exact C.
+      + destruct (block_refines_ledger w st pf Hw Hrep) as (w1 & evs & E1 & Hw1 & Hs1 & Hr1). rewrite E1.
+        destruct (IH w1 (fun d => a_block (dw_subs w) (st d)) Hw1 Hok' Hr1) as (w' & E & A & B & C).
+        exists w'. split; [exact E|]. split; [exact A|]. split; [rewrite B; exact Hs1|]. intros d. specialize (C d). rewrite Hs1 in C. exact C.
+  Qed.
+
+  (* the same history with other payouts failing *)
+  Definition same_but_faults (o o' : lop) : Prop :=
+    match o, o' with
+    | LInflowMain c, LInflowMain c' => c = c'
+    | LInflowAcct a c, LInflowAcct a' c' => a = a' /\ c = c'
+    | LBlock _, LBlock _ => True
+    | _, _ => False
+    end.
+
+  Lemma a_run_ignores_faults subs d ops ops' : Forall2 same_but_faults ops ops' -> forall st, a_run subs d st ops = a_run subs d st ops'.
+  Proof.
+    induction 1 as [|o o' t t' Ho _ IH]; intros st; [reflexivity|]. unfold a_run in *. cbn [fold_left].
+    destruct o, o'; cbn [same_but_faults] in Ho; try contradiction; cbn [a_step].
+    - subst. apply IH.
+    - destruct Ho as [-> ->]. apply IH.
+    - apply IH.
+  Qed.
+
+  (* C14: two runs of the same history that differ only in which payouts and burns fail credit every account, the burn and the
+     unbooked remainder with exactly the same amounts after every prefix; in particular nothing is lost or counted twice *)
+  Theorem failures_do_not_change_credited_amounts ops ops' w (st : Z -> aled) :
+    lwinv w -> Forall lop_ok ops -> Forall lop_ok ops' -> Forall2 same_but_faults ops ops' -> (forall d, LRep d (st d) w) ->
+    exists w1 w2, lrun w ops = Ok w1 /\ lrun w ops' = Ok w2 /\
+      forall d, (forall a, Acct a -> ledA a (dw_states w1) (wbank w1) d = ledA a (dw_states w2) (wbank w2) d) /\
+                ledB bk (dw_states w1) (wbank w1) d = ledB bk (dw_states w2) (wbank w2) d /\
+                unbooked (dw_states w1) (wbank w1) d = unbooked (dw_states w2) (wbank w2) d.
+  Proof.
+    intros Hw Hok Hok' Hsame Hrep.
+    destruct (history_refines_ledger ops w st Hw Hok Hrep) as (w1 & E1 & _ & _ & R1).
+    destruct (history_refines_ledger ops' w st Hw Hok' Hrep) as (w2 & E2 & _ & _ & R2).
+    exists w1, w2. split; [exact E1|]. split; [exact E2|]. intros d.
+    destruct (R1 d) as (A1 & B1 & C1). destruct (R2 d) as (A2 & B2 & C2).
+    rewrite (a_run_ignores_faults (dw_subs w) d ops ops' Hsame) in A1, B1, C1.
+    split; [intros a Ha; rewrite <- (A1 a Ha), <- (A2 a Ha); reflexivity|]. split; [rewrite <- B1, <- B2; reflexivity|lia].
+  Qed.
+
+  (* "made up later": once an account's last payout went through in both runs (its recorded remains are below one unit),
+     the two balances are equal — exactly, not only up to one unit *)
+  Corollary settled_balances_agree a sts1 b1 sts2 b2 d :
+    da_type a <> T_INTERNAL -> ledA a sts1 b1 d = ledA a sts2 b2 d ->
+    0 <= remk (da_key a) d sts1 < P -> 0 <= remk (da_key a) d sts2 < P ->
+    dc_amt d (bal_of (bk_bal b1) (da_addr a)) = dc_amt d (bal_of (bk_bal b2) (da_addr a)).
+  Proof. unfold ledA. intros Hni. replace (da_type a =? T_INTERNAL) with false by lia. pose proof P_pos as HP. intros H0 H1 H2. nia. Qed.
+End Accounts.
+
+(* ------------------------------------------------------------------ the assumptions on the configuration's accounts, bundled *)
+Record acct_universe (Acct : dacct -> Prop) (bk : Z) : Prop := {
+  au_type : forall a, Acct a -> da_type a <> T_MAIN;
+  au_addr : forall a, Acct a -> da_type a <> T_INTERNAL -> da_addr a <> MAINADDR;          (* no alias of the main account: not K2 *)
+  au_id : forall a, Acct a -> da_id a <> 0;
+  au_bk : forall a, Acct a -> da_key a <> bk;
+  au_key_id : forall a a', Acct a -> Acct a' -> (da_key a = da_key a' <-> da_id a = da_id a');   (* no id shared by different accounts: not K4 *)
+  au_key_same : forall a a', Acct a -> Acct a' -> da_key a = da_key a' -> da_type a = da_type a' /\ da_addr a = da_addr a';
+  au_addr_key : forall a a', Acct a -> Acct a' -> da_type a <> T_INTERNAL -> da_type a' <> T_INTERNAL -> da_addr a = da_addr a' -> da_key a = da_key a' }.
+
+Theorem ledger_refinement Acct bk (U : acct_universe Acct bk) ops w (st : Z -> aled) :
+  lwinv Acct bk w -> Forall (lop_ok Acct) ops -> (forall d, LRep Acct bk d (st d) w) ->
+  exists w', lrun w ops = Ok w' /\ lwinv Acct bk w' /\ dw_subs w' = dw_subs w /\ forall d, LRep Acct bk d (a_run (dw_subs w) d (st d) ops) w'.
+Proof. destruct U. apply history_refines_ledger; assumption. Qed.
+
+Theorem ledger_independent_of_failures Acct bk (U : acct_universe Acct bk) ops ops' w (st : Z -> aled) :
+  lwinv Acct bk w -> Forall (lop_ok Acct) ops -> Forall (lop_ok Acct) ops' -> Forall2 same_but_faults ops ops' -> (forall d, LRep Acct bk d (st d) w) ->
+  exists w1 w2, lrun w ops = Ok w1 /\ lrun w ops' = Ok w2 /\
+    forall d, (forall a, Acct a -> ledA a (dw_states w1) (wbank w1) d = ledA a (dw_states w2) (wbank w2) d) /\
+              ledB bk (dw_states w1) (wbank w1) d = ledB bk (dw_states w2) (wbank w2) d /\
+              unbooked (dw_states w1) (wbank w1) d = unbooked (dw_states w2) (wbank w2) d.
+Proof. destruct U. apply failures_do_not_change_credited_amounts; assumption. Qed.
